@@ -595,6 +595,30 @@ theorem tx_data_within_max_frame_size (w w' : Writer) (sid : Nat) (payload : Byt
   · rw [tx_data_too_big w sid payload eos pad hgt] at h; cases h
   · omega
 
+/-- the fixed-shape control frames have at most 42 payload octets (7 settings), far below any legal
+    `max_frame_size` (≥ 2^14) -/
+theorem tx_control_within_max_frame_size (f : Model.Frame.Frame) (bs : Bytes) (h : encodeSimple f = some bs)
+    (hk : match f with
+      | .settings .. => True
+      | .windowUpdate .. => True
+      | .reset .. => True
+      | .ping _ p => p.length = 8
+      | _ => False) : bs.length ≤ 9 + 42 := by
+  cases f <;> simp only [encodeSimple, Option.some.injEq, reduceCtorEq] at h hk <;> subst h
+  · simp
+  · rename_i ack vals
+    have := settingsPayload_length vals
+    have := settingsOrder_length_le vals
+    simp only [List.length_append, Head.encode_length]; omega
+  · simp [hk]
+  · simp
+
+/-- OBSERVATION (not covered by `tx_within_max_frame_size`): `Encoder::buffer` has no size guard for
+    GOAWAY; a debug-data blob longer than the peer's `max_frame_size` would go out as one oversized
+    frame.  In this tree all debug data are short library strings. -/
+theorem buffer_goaway_unchecked (w : Writer) (last code : Nat) (dbg : Bytes) :
+    (w.buffer (.simple (.goAway last code dbg))).2 = .ok := rfl
+
 /-- header frames: the chain `buffer` + `unset_frame` put on the wire contains no frame above
     `max_frame_size` in the eyes of an RFC 9113 receiver with that limit -/
 theorem tx_headers_within_max_frame_size (w : Writer) (sid : Nat) (eos : Bool) (fields : List Model.Hpack.Field)
